@@ -141,6 +141,8 @@ class BaseHandler:
             and (self.selector.find(".\\") == -1)
             and (self.selector.find("\\\\") == -1)
             and (self.selector.find("\0") == -1)
+            # a trailing "/." names the same directory under another selector
+            and not self.selector.endswith("/.")
         )
 
     def canhandlerequest(self) -> bool:
